@@ -2,7 +2,8 @@
 Usage: keep_seeds.py /tmp/seeds [--in-repo]"""
 import json, os, shutil, subprocess, sys
 src = sys.argv[1]
-extra = [a for a in sys.argv[2:] if a.startswith("--")]
+extra = [a for a in sys.argv[2:] if a.startswith("--") and not a.startswith("--tag=")]
+tag = next((a.split("=",1)[1] for a in sys.argv[2:] if a.startswith("--tag=")), "")
 out_root = "/verif/seeded"
 os.makedirs(out_root, exist_ok=True)
 summary = {}
@@ -14,7 +15,7 @@ for prop in sorted(os.listdir(src)):
         d = os.path.join(pd, n)
         if not (n.isdigit() and os.path.exists(os.path.join(d, "patch.diff")) and os.path.exists(os.path.join(d, "demo.py"))):
             continue
-        sid = f"{prop}-{n}"
+        sid = f"{prop}-{tag}{n}"
         r = subprocess.run(["/venv/bin/python", "/verif/tools/eval_seed.py", d] + extra, capture_output=True, text=True)
         try:
             ev = json.loads(r.stdout[r.stdout.index("{"):])
@@ -44,4 +45,4 @@ for prop in sorted(os.listdir(src)):
             json.dump(meta, open(os.path.join(dst, "meta.json"), "w"), indent=1)
         summary[sid] = {"kept": bool(ok), "detected": {k: v["rules"] for k, v in ev.get("fired", {}).items() if v["exit"] == 1}, "analysis_error_only": [k for k, v in ev.get("fired", {}).items() if v["exit"] == 2]}
         print(sid, "kept" if ok else "REJECTED", summary[sid]["detected"] or "NOT DETECTED", flush=True)
-json.dump(summary, open(os.path.join(out_root, "SUMMARY.json"), "w"), indent=1)
+json.dump(summary, open(os.path.join(out_root, f"SUMMARY{("-" + tag.strip("-")) if tag else ""}.json"), "w"), indent=1)
